@@ -44,12 +44,32 @@ REGISTRY = {
                             "host class x content-length count x content-length class x chunked) is compared with the table "
                             "written from the property statement (R17.1/R17.2); refusal paths are checked to precede the output "
                             "writer and to store nothing (R17.3)."),
+    "C09": dict(modules=["rules_c09"], min_instances=20, trusted_base=TB + ["rustdoc compile_fail witnesses (thorough tier)"],
+                explanation="Typestate fixpoint (E4): H(S) = finite valuations (holder variant, phase, writer mode/ended, analyzed, "
+                            "reader variant, body-due / expect flags, status/location presence, request-method class) with which a "
+                            "Flow<S> can exist, seeded by Flow::new and closed under every public method of every state; every "
+                            "method is run abstractly from every valuation of its state and must not reach a panic (R09.1); "
+                            "successor edges and flag-indexed successor cells are compared with the documented graph (R09.2); "
+                            "can_proceed and proceed are run on shared facts and must agree (R09.3); every unreachable!/unwrap/"
+                            "expect/assert! site reachable from the Flow API is discharged by the fixpoint, by caller-dispatch "
+                            "dominance or by a reviewed reason (R09.4); thorough: compile_fail witnesses for illegal call orders (R09.5)."),
+    "C04": dict(modules=["rules_bodies"], rules_attr="C04_RULES", min_instances=5, trusted_base=TB,
+                explanation="E4 abstract interpretation of Call::<WithBody>::write / consume_direct_write with a sized writer whose "
+                            "remaining length, the input length and the output space are unknowns; bounds are decided by order "
+                            "reasoning over the path facts (min-of-three, casts, strict comparisons): consumed n <= input, <= "
+                            "remaining, depends on the output space; exactly input[..n] is emitted; remaining -= n; finished <=> "
+                            "remaining == 0; refusal guards are strict and effect-free; who-may-write on the remaining length."),
+    "C08": dict(modules=["rules_bodies"], rules_attr="C08_RULES", min_instances=6, trusted_base=TB,
+                explanation="E4 abstract interpretation of Call::<RecvBody>::read for the length- and close-delimited readers with "
+                            "unknown lengths: n = min(input, output[, remaining]) by order reasoning, one aligned prefix copy "
+                            "dst[..n] <- src[..n], (n, n) reported, remaining -= n / no store; completion tables (is_ended, "
+                            "can_proceed) and the ended short-circuit."),
 }
 
 _PENDING = "check not built yet in this round (planned static rules: DESIGN.md section 4)"
 NOT_APPLICABLE = {
-    "C01": _PENDING, "C02": _PENDING, "C03": _PENDING, "C04": _PENDING, "C05": _PENDING,
-    "C07": _PENDING, "C08": _PENDING, "C09": _PENDING, "C10": _PENDING, "C11": _PENDING,
+    "C01": _PENDING, "C02": _PENDING, "C03": _PENDING, "C05": _PENDING,
+    "C07": _PENDING, "C10": _PENDING, "C11": _PENDING,
     "C12": _PENDING, "C16": _PENDING,
     "C18": _PENDING, "C20": _PENDING,
     "C19": "quantitative liveness claim over two run-time lengths and hex-digit counts: no clause is visible in "
@@ -58,6 +78,31 @@ NOT_APPLICABLE = {
 }
 
 MANIFEST_META = {
+    "C04": dict(
+        technique="abstract interpretation over MIR with order (<=) reasoning: bound obligations and accounting invariants on every path",
+        design_ref="DESIGN.md section 4 C04",
+        level_text="Structural proof of left + consumed = N: every decrement is by the returned count, which is <= remaining, <= "
+                   "input and limited by the output space; finished <=> remaining == 0; strict refusal guards without effects; "
+                   "holds for all u64 lengths (the u64/usize clamp is part of the order reasoning).",
+        level_note="Trusted: rustc MIR; axioms: Ord::min, saturating_sub, slice indexing lengths, io::Write for Cursor accepts "
+                   "<= remaining bytes (reviewed assert), Cursor::position <= buffer length (reviewed)."),
+    "C08": dict(
+        technique="abstract interpretation over MIR with order (<=) reasoning: bound obligations, copy alignment, completion tables",
+        design_ref="DESIGN.md section 4 C08",
+        level_text="Structural: each read moves n = min(input, output, remaining) bytes by one prefix-to-prefix copy of equal "
+                   "lengths, counts the remaining length down by n, is complete exactly at 0; close-delimited reads store nothing "
+                   "and the flow may always proceed; must-close for close-delimited bodies is C10's rule.",
+        level_note="Trusted: rustc MIR; axioms for slice indexing / copy_from_slice / min."),
+    "C09": dict(
+        technique="typestate analysis: abstract-interpretation fixpoint over the Flow API + panic-site inventory + compile-fail witnesses",
+        design_ref="DESIGN.md section 4 C09",
+        level_text="Typestate: covers call histories of any length (least fixpoint over the state graph, not a bounded "
+                   "enumeration): no permitted call sequence reaches a panic site; successor states and readiness queries "
+                   "agree with the documented graph for every reachable valuation.",
+        level_note="Trusted: rustc MIR + type checking (illegal orders do not compile: witnesses); axioms for std/http; loops "
+                   "inside the head writer / chunk decoder are replaced by their store summary (sites inside discharged by "
+                   "caller-dispatch dominance or reviewed); arithmetic/index panics are C12's; reviewed.json and "
+                   "known_findings.json list the sites not proven."),
     "C17": dict(
         technique="abstract interpretation over MIR (finite-domain acceptance table) + effect/ordering rules",
         design_ref="DESIGN.md section 4 C17",
